@@ -189,6 +189,8 @@ PROBES: Dict[str, tuple] = {
     'R142': ('import itertools\ndef f(lines):\n    lines = iter(lines)\n    first = next(lines, None)\n    if isinstance(first, bytes):\n        raise TypeError()\n    return itertools.chain([first], lines)\n', 1),
     'R143': ('from itertools import groupby\ndef f(rel):\n    return {k: list(g) for k, g in groupby(rel, key=lambda t: t[0])}\n', 1),
     'R145': ('def from_string(s):\n    _s = s.lstrip("~").lower()\n    return _s\n', 1),
+    'R147': ('def typ(constant_string, value):\n    if value is not constant_string:\n        return 1\n    return 0\n', 1),
+    'R148': ('def _parse_triple(tokens):\n    target = tokens.next().text\n    if target == "None":\n        target = None\n    return target\n', 1),
     'R96': ('def f(a) -> str:\n    if a:\n        return "x"\n', 1),
 }
 
